@@ -91,9 +91,19 @@ Fixpoint nodup_paths (l : list path) : bool :=
   | p :: l' => negb (mem_path p l') && nodup_paths l'
   end.
 
-(* every directory holding a module is a package with an __init__, no module is named like a
-   table entry of isStandardLibrary, a module has one file *)
+(* no module without a name, a module has one file, and a directory that holds a module without being a package (a
+   namespace package, PEP 420) is not named like a table entry of isStandardLibrary: Python would import the standard
+   library's regular package, and pyscn's answer depends on include_stdlib (Props/C12.v
+   C12_include_stdlib_matters_for_stdlib_named_namespace).  Since fix 8ba1334 (F62) namespace packages are allowed. *)
 Definition project_shape (pr : project) : bool :=
+  nodup_paths (module_names pr) &&
+  forallb (fun m => negb (Nat.eqb (length (m_path m)) 0) &&
+                    (Nat.leb (length (m_path m)) 1 || init_file_exists pr (removelast (m_path m)) ||
+                     negb (isStandardLibrary (m_path m))) &&
+                    forallb stmt_shape (m_imports m)) pr.
+
+(* the shape the unbounded theorem assumed before: every directory holding a module is a package with an __init__ *)
+Definition project_shape_strict (pr : project) : bool :=
   nodup_paths (module_names pr) &&
   forallb (fun m => negb (Nat.eqb (length (m_path m)) 0) &&
                     (Nat.leb (length (m_path m)) 1 || init_file_exists pr (removelast (m_path m))) &&
